@@ -3,6 +3,7 @@ C20 — Hashed file-tree paths keep the parent/child relation; trailing slash is
 For every hash function `H` and every path — no bound on the number or length of segments.
 -/
 import Canine.Filetree.Path
+import Canine.Generated.KeyFacts
 namespace Canine.Filetree
 
 theorem splitOnSlash_ne_nil (s : Str) : splitOnSlash s ≠ [] := by
@@ -261,5 +262,14 @@ example (H : Str → Str) :
     addToMerkle H (merkleHelper H "a//b".toList).1 (merkleHelper H "a//b".toList).2
       = merklePath H "a/b".toList := by
   simp [merkleHelper, merklePath, addToMerkle, trimSlash, splitOnSlash, joinSlash, foldSegs]
+
+/-- **C20, the client-side copies (regenerated fact).**  The client helper that `canined tx filetree post-file`
+uses to turn a plain path into `HashParent` / `HashChild` (`x/filetree/client/cli/utils.go: merkleHelper`) is the
+same code, modulo the package qualifier, as the helper the harness evaluates against the model on every path
+record (`types.MerkleHelper`), and so are the two copies of `MakeOwnerAddress`: what
+`C20_helper_recombines_to_path_address` and the differential evaluation establish for one copy holds for the
+other.  The table is recomputed from the source on every run (`gen/main.go`). -/
+theorem C20_client_helper_copies_are_the_compared_ones :
+    Generated.helperClones.all (fun c => c.2.2) = true ∧ Generated.helperClones.length = 2 := by decide
 
 end Canine.Filetree
